@@ -6,7 +6,7 @@
 1. takes `git diff -- pypika_tortoise` of the worktree as the patch;
 2. confirms in the worktree: suite green with the patch; demo exits 1 with the patch and 0 without;
 3. applies the patch to /repo, runs every quick check, records which report NEW violations, and undoes the patch
-   (git -C /repo checkout -- .) straight afterwards;
+   (git -C <target, default /repo> checkout -- .) straight afterwards;
 4. stores /verif/seeded/<seed-name>/{patch.diff, demo.py, meta.json}.
 """
 import json
@@ -19,6 +19,7 @@ from pathlib import Path
 
 V = Path(__file__).resolve().parent.parent
 PY = "/venv/bin/python"
+TARGET = os.environ.get("SEED_EVAL_TARGET", "/repo")   # checkout the patch is applied to (default /repo; a scratch worktree at the same commit allows parallel runs)
 ALL = ["C01", "C02", "C04", "C05", "C06", "C07", "C08", "C09", "C10", "C11", "C12", "C13", "C14", "C15", "C16", "C17", "C18"]
 
 
@@ -65,13 +66,13 @@ def main():
     detections = {}
     patch_file = Path("/tmp") / f"seed-{name}.diff"
     patch_file.write_text(diff)
-    rc, o = sh(f"git -C /repo apply {patch_file}")
+    rc, o = sh(f"git -C {TARGET} apply {patch_file}")
     if rc != 0:
         # /repo has moved on (later fix: commits): try a three-way application against the blobs the patch was made from
-        rc, o = sh(f"git -C /repo apply --3way {patch_file}")
-        unmerged = sh("git -C /repo diff --name-only --diff-filter=U")[1].strip()
+        rc, o = sh(f"git -C {TARGET} apply --3way {patch_file}")
+        unmerged = sh(f"git -C {TARGET} diff --name-only --diff-filter=U")[1].strip()
         if rc != 0 or unmerged:
-            sh("git -C /repo reset -q --hard")
+            sh(f"git -C {TARGET} reset -q --hard")
             note = "patch no longer applies to the current /repo (the code it edits was changed by a later fix: commit); detection results below are from the last evaluation against the tree it applied to"
             print("patch does not apply to /repo:", o[:200])
             mf = out / "meta.json"
@@ -80,21 +81,21 @@ def main():
                 m["note"] = note
                 mf.write_text(json.dumps(m, indent=1))
             return 1
-        sh("git -C /repo reset -q")   # keep the merged result in the working tree only
+        sh(f"git -C {TARGET} reset -q")   # keep the merged result in the working tree only
     try:
         for pid in ALL:
-            rc, o = sh(f"{PY} {V}/sa/check.py {pid} --tier quick", env={"VERIF_EVIDENCE_DIR": "/tmp/seed-evidence"})
+            rc, o = sh(f"{PY} {V}/sa/check.py {pid} --tier quick", env={"VERIF_EVIDENCE_DIR": f"/tmp/seed-evidence-{name}", "VERIF_REPO": TARGET})
             keys = re.findall(r"^\s+(C\d\d/[^\s]+?): ", o, flags=re.M)
             if rc == 1:
                 detections[pid] = keys[:8]
             elif rc == 2:
                 detections[pid] = ["ANALYSIS-ERROR: " + " ".join(l for l in o.splitlines() if "ANALYSIS-ERROR" in l)[:200]]
     finally:
-        sh("git -C /repo checkout -- .")
-        sh("git -C /repo clean -fdq pypika_tortoise")
-        shutil.rmtree("/tmp/seed-evidence", ignore_errors=True)
+        sh(f"git -C {TARGET} checkout -- .")
+        sh(f"git -C {TARGET} clean -fdq pypika_tortoise")
+        shutil.rmtree(f"/tmp/seed-evidence-{name}", ignore_errors=True)
         patch_file.unlink(missing_ok=True)
-    rc, st = sh("git -C /repo status --short")
+    rc, st = sh(f"git -C {TARGET} status --short")
     assert not st.strip(), st
     out.mkdir(parents=True, exist_ok=True)
     (out / "patch.diff").write_text(diff)
@@ -112,7 +113,7 @@ def main():
             "demo_without_patch": {"rc": rc_d0, "output": out_d0[-300:]},
             "commands": ["cd <worktree> && PYTHONPATH=<worktree> /venv/bin/python -m pytest -q -p no:cacheprovider -x",
                          "PYTHONPATH=<worktree> /venv/bin/python seed_demo.py  (with the patch, and after git stash)",
-                         "git -C /repo apply patch.diff; /venv/bin/python /verif/sa/check.py <ID> --tier quick (all 17); git -C /repo checkout -- ."],
+                         "git -C <target> apply patch.diff; /venv/bin/python /verif/sa/check.py <ID> --tier quick (all 17); git -C <target> checkout -- ."],
         },
         "detected_by": detections,
     }
